@@ -25,12 +25,12 @@ class SatSystem(System):
     name = "sat"
     serves = ("C16",)
     rule = (
-        "CountingBloomFilter (3 geometries, table hash: key c with all positions on one cell, b sharing cells with a) and "
-        "CountMinSketch (width x depth in {(1,1),(2,2),(3,2)}, colliding table hash) driven with add/remove amounts "
-        "{1, LIMIT-1, LIMIT, LIMIT+1, 2^32, 2^64+5} (counting Bloom: removals never exceed the key's outstanding count; "
-        "count-min: unrestricted, so cells also reach -2^31); all sequences to depth 3 (4 thorough); at every state "
-        "union/intersection/join with three near-limit operands and with itself, and export+reload; oracle = per-cell "
-        "saturating integer vector; non-trivial = state with at least one cell or total at a limit."
+        'CountingBloomFilter (3 geometries, table hash: key c with all positions on one cell, b sharing cells with a) and '
+        'CountMinSketch (width x depth in {(1,1),(2,2),(3,2)}, colliding table hash, one more in mean query mode) driven with '
+        "add/remove amounts {1, LIMIT-1, LIMIT, LIMIT+1, 2^32, 2^64+5} (counting Bloom: removals never exceed the key's "
+        'outstanding count; count-min: unrestricted, so cells also reach -2^31); all sequences to depth 3 (4 thorough); at every '
+        'state union/intersection/join with four or five near-limit operands and with itself, and export+reload; oracle = '
+        'per-cell saturating integer vector; non-trivial = state with at least one cell or total at a limit.'
     )
 
     def configs(self, prop, tier, seed):
